@@ -388,12 +388,15 @@ def Z0(x):
 JIN = "molli.pipeline.job:JobInput"
 
 
-def _canon(x):
-    """what msgpack keeps of a value: maps, arrays (tuples and lists alike), and the leaves (str stays str, bytes stays bytes)"""
+def _canon(x, single=False):
+    """what msgpack keeps of a value: maps, arrays (tuples and lists alike), and the leaves (str stays str, bytes stays bytes).
+    Packed with use_single_float, a float leaf is stored as its nearest float32: not the same number any more."""
     if isinstance(x, DictV):
-        return ("map", tuple((k, _canon(v)) for k, v in zip(x.keys, x.vals)))
+        return ("map", tuple((k, _canon(v, single)) for k, v in zip(x.keys, x.vals)))
     if isinstance(x, (ListV, tuple)):
-        return ("array", tuple(_canon(v) for v in (x.items if isinstance(x, ListV) else x)))
+        return ("array", tuple(_canon(v, single) for v in (x.items if isinstance(x, ListV) else x)))
+    if single and (isinstance(x, float) or (isinstance(x, SV) and x.ty == "real")):
+        return ("leaf", Opaque("float32-of", (x,)))
     return ("leaf", x)
 
 
@@ -423,11 +426,11 @@ def _decanon(c):
 def _jobinput(V):
     I, st = V.I, V.st
     packed = []
-    I.ext_models["msgpack.dumps"] = Builtin("msgpack.dumps", lambda i, a, k: packed.append(_canon(a[0])) or Opaque(f"obj:packed{len(packed)}"))
+    I.ext_models["msgpack.dumps"] = Builtin("msgpack.dumps", lambda i, a, k: packed.append(_canon(a[0], bool(k.get("use_single_float")))) or Opaque(f"obj:packed{len(packed)}"))
     disk = {}
 
     def m_dump(i, a, k):
-        disk["blob"] = _canon(a[0])
+        disk["blob"] = _canon(a[0], bool(k.get("use_single_float")))
     I.ext_models["msgpack.dump"] = Builtin("msgpack.dump", m_dump)
     I.ext_models["msgpack.load"] = Builtin("msgpack.load", lambda i, a, k: _decanon(disk["blob"]))
     I.ext_models["hashlib.sha3_512"] = Builtin("sha3_512", lambda i, a, k: Obj(I.builtins["object"], {"digest": Builtin("digest", lambda i2, a2, k2: Opaque("digest", (a[0],)))}, tag="sha"))
